@@ -258,7 +258,7 @@ def run_scripts(scs, workdir, name="e4"):
 def check_scripts(res, scs, workdir, name):
     by_id = {s["id"]: s for s in scs}
     sp, tp, rc = run_scripts(scs, workdir, name)
-    stats, rejs = vf.validate_trace(MODULE, CFG, tp, workdir, boundary='"e":"srv_cfg"')
+    stats, rejs = vf.validate_trace(MODULE, CFG, tp, workdir, boundary='_cfg"')
     res.add_trace_stats(name, stats, {"harness_exit": rc})
     res.evaluations += len(scs)
     for s in scs:
@@ -332,3 +332,33 @@ def gen_c20_server(rng, thorough=False):
             steps.append({"op": "shutdown"})
             scs.append(scenario(len(scs), steps, max_sessions=3, tag=f"c20-server-burst{burst}"))
     return scs
+
+
+# ------------------------------------------------------------------ C09 (client role)
+SERVER_CERTS = ["server", "server_othername", "server_ca2", "server_expired", "server_notyet", "ss_a", "ss_b", "ss_expired"]
+
+
+def gen_c09_client(rng, thorough=False):
+    scs = []
+    grid = [("ca", "ca1", "test.com"), ("ca", "ca1", None), ("ca", "ca1", "other.example"), ("ca", "ca2", "test.com"),
+            ("self", "ss_a", None), ("self", "ss_expired", None)]
+    for (mode, trust, name) in grid:
+        for min_tls in ("1.2", "1.3"):
+            steps = []
+            for cert in SERVER_CERTS:
+                for vs in VERSION_SETS:
+                    steps.append({"op": "tlsc", "tls": {"cert": cert, "versions": vs}})
+            sc = scenario(len(scs), steps, variant="tls_client", mode=mode, min_tls=min_tls, peer_cert=trust,
+                          tag=f"c09-client-{mode}-{trust}-{name}-min{min_tls}")
+            sc["name"] = name
+            sc["local_cert"] = "client_operator" if mode == "ca" else "ss_b"
+            scs.append(sc)
+    return scs
+
+
+def gen_tls_client_stall():
+    sc = scenario(0, [{"op": "tlsc", "silent": True}, {"op": "tlsc", "silent": True}], variant="tls_client", mode="ca", min_tls="1.2",
+                  peer_cert="ca1", tag="tls-client-handshake-stall")
+    sc["name"] = "test.com"
+    sc["local_cert"] = "client_operator"
+    return [sc]
